@@ -1051,7 +1051,24 @@ func getFiletype(filetype string) (filetype, error) {
 	case "fifo":
 		return fifoFiletype, nil
 	default:
+		// Accept the numeric form that ToCommandLine and auditctl -l print.
+		if v, err := strconv.ParseUint(filetype, 0, 32); err == nil {
+			if ft, ok := filetypeFromNumber(uint32(v)); ok {
+				return ft, nil
+			}
+		}
 		return 0, fmt.Errorf("invalid filetype '%v'", filetype)
+	}
+}
+
+// filetypeFromNumber returns the filetype for a numeric file type (S_IFMT bits).
+func filetypeFromNumber(v uint32) (filetype, bool) {
+	switch ft := filetype(v); ft {
+	case fileFiletype, dirFiletype, socketFiletype, linkFiletype,
+		characterFiletype, blockFiletype, fifoFiletype:
+		return ft, true
+	default:
+		return 0, false
 	}
 }
 
